@@ -44,7 +44,7 @@ def harness(prop, *, name=None, params=None, pre=(), example=None, tier="quick",
                 t = p.annotation
                 ps.append((p.name, t.__name__ if isinstance(t, type) else str(t)))
         h = Harness(prop=prop, name=name or fname, module=fn.__module__, func=fname, fn=fn, params=list(ps),
-                    pre=list(pre), example=dict(example or {}), tier=tier, timeout=timeout, stubs=tuple(stubs),
+                    pre=list(pre), example=(None if example is None else dict(example)), tier=tier, timeout=timeout, stubs=tuple(stubs),
                     cubes=dict(cubes or {}), fixed=dict(fixed or {}), bounds=bounds, what=what or (fn.__doc__ or "").strip(),
                     lemma=lemma, extra_examples=list(extra_examples))
         setattr(mod, fname, fn)
